@@ -56,6 +56,31 @@ theorem fixed_fromArray_nil_accepted :
         (.struct (.cons "F".toList (some "a,optional".toList) (.prim .string) .nil)) (.obj [("a".toList, .null)]) with
      | .ok _ => true | _ => false) = true := by decide +kernel
 
+def witnessHeaderTy : Ty :=
+  .struct (.cons "A".toList (some "a,optional".toList) (.prim .string)
+          (.cons "B".toList (some "b,optional=!a".toList) (.prim .string) .nil))
+def witnessHeaderIn : J := .obj [("A".toList, .str "1".toList), ("B".toList, .str "2".toList)]
+
+/-- fourth defect of the pinned commit (header unmarshaler): the canonical-key function was applied to the whole
+text `!a`, which leaves it unchanged, so the dependency was looked up under `a` instead of `A`: with both headers
+supplied, `B string header:"b,optional=!a"` was accepted although exactly one of A, B may be present. -/
+theorem pinned_header_notdep_witness :
+    acceptsUnsound { fromString := true, canonical := true, pinned := true } witnessHeaderTy witnessHeaderIn = true := by
+  decide +kernel
+
+theorem fixed_header_notdep_rejected :
+    (match unmarshal { fromString := true, canonical := true } witnessHeaderTy witnessHeaderIn with
+     | .error .dep => true | _ => false) = true := by decide +kernel
+
+/-- fifth defect of the pinned commit: maps with pointer element type panic on any scalar value, and a null value
+for a slice element type panics while the error message is built -/
+theorem pinned_map_panics :
+    (match unmarshal { pinned := true } (.struct (.cons "M".toList (some "m".toList) (.map (.ptr (.prim (.int 64)))) .nil))
+        (.obj [("m".toList, .obj [("k".toList, .num "1".toList)])]) with | .error .panic => true | _ => false) = true
+    ∧ (match unmarshal { pinned := true } (.struct (.cons "M".toList (some "m".toList) (.map (.slice (.prim (.int 64)))) .nil))
+        (.obj [("m".toList, .obj [("k".toList, .null)])]) with | .error .panic => true | _ => false) = true := by
+  constructor <;> decide +kernel
+
 /-- **accept_sound** — nothing invalid is ever accepted: for every struct type (any nesting of structs and
 pointers, any tag text), every unmarshaler configuration of the repaired code and every input document, a
 successful unmarshal yields a value that satisfies the declared constraints: required scalars supplied,
